@@ -292,6 +292,7 @@ func checkC18(p *Program, r *Report) {
 			// setup runs before the runner in main
 		}
 		r.Check(okSetup, "C18.R2", "setup|args+core", "anko.go", "the environment defines args and has the core builtins", why)
+		c18ArgsOrder(p, r, sp, modPath)
 	}
 	blank := false
 	for path := range pk.Imports {
@@ -475,4 +476,81 @@ func executeFlagGlobal(sp *ssa.Package) *ssa.Global {
 		}
 	}
 	return nil
+}
+
+// c18ArgsOrder: the value bound as "args" is read from a package variable; in main, every function that assigns that variable
+// is called before the function that binds it.
+func c18ArgsOrder(p *Program, r *Report, sp *ssa.Package, modPath string) {
+	var argsG *ssa.Global
+	var binder *ssa.Function
+	for _, fn := range SrcFuncs(sp) {
+		for _, b := range fn.Blocks {
+			for _, in := range b.Instrs {
+				c, ok := in.(*ssa.Call)
+				if !ok {
+					continue
+				}
+				o := calleeObj(c)
+				if o == nil || !isFuncNamed(o, modPath+"/env", "Env", "Define") || len(c.Call.Args) != 3 {
+					continue
+				}
+				if k, ok := c.Call.Args[1].(*ssa.Const); !ok || k.Value == nil || k.Value.ExactString() != "\"args\"" {
+					continue
+				}
+				v := c.Call.Args[2]
+				if mi, ok := v.(*ssa.MakeInterface); ok {
+					v = mi.X
+				}
+				if u, ok := v.(*ssa.UnOp); ok {
+					if g, ok := u.X.(*ssa.Global); ok {
+						argsG, binder = g, fn
+					}
+				}
+			}
+		}
+	}
+	if argsG == nil {
+		return // args is not taken from a package variable: nothing to order
+	}
+	assigners := map[*ssa.Function]bool{}
+	for _, fn := range SrcFuncs(sp) {
+		for _, b := range fn.Blocks {
+			for _, in := range b.Instrs {
+				if st, ok := in.(*ssa.Store); ok && st.Addr == ssa.Value(argsG) && fn.Name() != "init" {
+					assigners[fn] = true
+				}
+			}
+		}
+	}
+	mainFn := sp.Func("main")
+	if mainFn == nil || binder == nil {
+		return
+	}
+	var bindCall ssa.Instruction
+	var assignCalls []ssa.Instruction
+	for _, b := range mainFn.Blocks {
+		for _, in := range b.Instrs {
+			if c, ok := in.(*ssa.Call); ok {
+				if callee := staticCallee(c); callee != nil {
+					if callee == binder {
+						bindCall = in
+					}
+					if assigners[callee] {
+						assignCalls = append(assignCalls, in)
+					}
+				}
+			}
+		}
+	}
+	if bindCall == nil {
+		return
+	}
+	bad := ""
+	for _, a := range assignCalls {
+		if !instrDominates(a, bindCall) {
+			bad = p.Pos(instrPos(a))
+		}
+	}
+	r.Check(bad == "" && (len(assignCalls) > 0 || len(assigners) == 0), "C18.R2", "main|arguments parsed before they are bound", p.Pos(instrPos(bindCall)), "the variable holding the script arguments is assigned before the environment binds it",
+		"the environment binds the script arguments before the command line is parsed (the assignment at "+bad+" comes later): every script sees an empty args")
 }
